@@ -15,7 +15,9 @@ from progs import S, Q, STR
 
 
 def frag(rnd):
-    ks = rnd.sample(["zeta", "alpha", "mid", "b", "a", "c", "k1", "k10", "k2", "Z", "_x"], rnd.randrange(2, 7))
+    # (index-like keys of different widths with a non-decimal key between them bytewise: an order that is numeric for
+    # some pairs and bytewise for others is not an order at all)
+    ks = rnd.sample(["zeta", "alpha", "mid", "b", "a", "c", "k1", "k10", "k2", "Z", "_x", "9", "10", "1a", "2", "007", "100", "1e3", "-1"], rnd.randrange(2, 9))
     kv = " ".join('"%s" %d' % (k, rnd.randrange(100)) for k in ks)
     skv = " ".join("'%s %d" % (k.lower().strip("_") or "q", rnd.randrange(100)) for k in ks)
     js = json.dumps({k: rnd.choice([1, "s", [1, 2], {"n": 1, "m": [True, None]}, 2.5]) for k in ks})
